@@ -101,6 +101,17 @@ CHECKS = {
                 'MetadataFilter(id()) resp. SourceFilter(id()), inherited properties shadow by name. Equality with a brute-force '
                 'traversal for all trees is not decided.',
     },
+    'C07': {
+        'technique': 'static analysis: abstract interpretation with symbolic results on every abstract path (boolean abstraction of all '
+                     'comparisons) of the four range-pair functions and the four position->index helpers, per PositionMatch / '
+                     'RangeMatch enumerator; dispatch-table extraction; element-wise delegation rule',
+        'text': 'Narrow claim: decides the discrete structure of C07, not its numerics. Pair = (GreaterOrEqual(start), '
+                'LessOrEqual|Less(end)) iff start <= end, both exist, ordered (4 functions x 2 modes, all abstract paths); vector '
+                'overloads delegate element-wise under an equal-length guard; positionToIndex routes every DimensionType to the '
+                'matching overload; per matching rule the sampled/set/data-frame helpers use ceil/floor/round with the exact-hit '
+                '+-1 adjustment, the range helper handles before-first / after-last / lower_bound adjustment as specified. The '
+                'floating-point behaviour of the epsilon test (0.1-interval rounding) is NOT decided.',
+    },
 }
 
 _NYI = 'check not built yet in this session (planned in DESIGN.md); not claimed until its rule runs and is validated'
